@@ -625,10 +625,12 @@ def c03(sc, V):
                 if not kids:
                     continue
                 in_kill = any(m[0] == "ev" and m[2] == "kill" and m[3] == l[1] for m in s.lines[i + 1:i + 3])
+                # the configured stop_children is in force only while no `set` touched the watcher and no `add` created a
+                # namesake with default options (rm + add of the same name: stop_children is off again)
                 is_stop = l[2] != 9 and in_kill and s.cmd() not in ("signal",) and cfg.get("stop_children") and \
-                    not any(x.cmd() == "set" for x in V[:s.n + 1])
+                    not any(x.cmd() in ("set", "add") for x in V[:s.n + 1])
                 is_final = l[2] == 9 and s.kind() == "wake" and cfg.get("stop_children") and \
-                    not any(x.cmd() == "set" for x in V[:s.n + 1])
+                    not any(x.cmd() in ("set", "add") for x in V[:s.n + 1])
                 if is_stop or is_final:
                     got = set(m[1] for m in s.lines if m[0] == "sig" and m[2] == l[2])
                     # a child that died by itself during the step (armed fault) cannot be signalled
